@@ -135,6 +135,7 @@ type chanModel struct {
 	VoidStep    int
 	Sampled     bool // a sampling consumer ever subscribed: exempt from conservation
 	ConnEnds    []int // steps at which a consumer connection of this channel ended
+	lastConnEnd time.Time
 	msgs        map[string]*msgChan
 	// stats bookkeeping (this incarnation)
 	Fins, Reqs  int64
@@ -1056,6 +1057,7 @@ func (w *qWorld) consumerDied(co *consumer) {
 	co.DeadStep = w.epoch
 	if c := w.chans[co.ck]; c != nil {
 		c.ConnEnds = append(c.ConnEnds, w.epoch)
+		c.lastConnEnd = time.Now()
 		w.ephemeralCleanup(c)
 	}
 }
